@@ -4,12 +4,14 @@ open Lean Shelx.J
 
 /-
   C08 driver.  {"p":"C08","op":"replay","cfg":"repaired"|"snapshot","file":[LINE…],"ops":[OP…]}
-    LINE = ["r",t] | ["a",t,name] | ["c",t]
+    LINE = ["r",t] | ["r",t,k] | ["a",t,name] | ["c",t] | ["c",t,k]        (k: the attribute the line assigns)
     OP   = ["delId",k] | ["delete",a] | ["insert",pos,t] | ["rename",a,name,t] | ["retext",u,t] | ["lookup"] | ["read",[LINE…]]
   Answer: {"steps":[SNAP…]} — one snapshot after the initial read and one after every op. The harness looks at the
   object graph after every step (which goes through `atomsdict`), so the replay applies `lookup` after each snapshot.
     SNAP = {"raised":b, "atoms":[[uid,atomid,index|null]…], "cards":[[uid,index|null]…], "byname":[[uid,found|null]…],
-            "res":[[kind,x]…], "gone":[uid…], "model":[six clause verdicts of Inv8 on the model state], "spec":true}
+            "res":[[kind,x]…], "gone":[uid…], "slots":[[attribute,uid]…] (attributes that hold an instruction object),
+            "specslots": the same from the specification (last instruction of the file read last),
+            "model":[seven clause verdicts of Inv8 on the model state], "spec":true}
 -/
 namespace Shelx.Drv.C08
 open Shelx.C08
@@ -20,11 +22,13 @@ def lineOf (j : Json) : Except String Line := do
   | [k, t] =>
     let k ← str k
     let t ← nat t
-    if k == "r" then return .raw t else if k == "c" then return .card t else err s!"C08: bad line kind {k}"
+    if k == "r" then return .raw t none else if k == "c" then return .card t none else err s!"C08: bad line kind {k}"
   | [k, t, n] =>
     let k ← str k
-    if k != "a" then err s!"C08: bad line kind {k}"
-    return .atom (← nat t) (← nat n)
+    if k == "a" then return .atom (← nat t) (← nat n)
+    else if k == "r" then return .raw (← nat t) (some (← nat n))
+    else if k == "c" then return .card (← nat t) (some (← nat n))
+    else err s!"C08: bad line kind {k}"
   | _ => err "C08: bad line"
 
 def opOf (j : Json) : Except String Op := do
@@ -52,7 +56,10 @@ def entryJson : Entry → Json
   | .atom u => Json.arr #[Json.str "a", ofNat u]
   | .card u => Json.arr #[Json.str "c", ofNat u]
 
-def snap (c : Cfg) (s : St) (raised : Bool) : Json :=
+def pairsJson (l : List (Nat × Nat)) : Json :=
+  Json.arr (l.map fun p => Json.arr #[ofNat p.1, ofNat p.2]).toArray
+
+def snap (c : Cfg) (s : St) (f : List Line) (raised : Bool) : Json :=
   Json.mkObj [
     ("raised", Json.bool raised),
     ("atoms", Json.arr (s.atoms.map fun a => Json.arr #[ofNat a, ofNat (atomid c s a), optNat (indexOf c s (.atom a))]).toArray),
@@ -60,15 +67,19 @@ def snap (c : Cfg) (s : St) (raised : Bool) : Json :=
     ("byname", Json.arr (s.atoms.map fun a => Json.arr #[ofNat a, optNat (byName s (s.name a))]).toArray),
     ("res", Json.arr (s.res.map entryJson).toArray),
     ("gone", Json.arr (s.gone.map ofNat).toArray),
+    ("slots", pairsJson (slotTable s)),
+    -- slot_history: after any history the attributes are those of the file read last
+    ("specslots", pairsJson ((s.slots.map (·.1)).eraseDups.filterMap fun k => (specSlot f k).map fun u => (k, u))),
     ("model", Json.arr ((clauses c s).map Json.bool).toArray),
     -- the theorem's right-hand side: after any history of the repaired code every clause holds (history_inv)
     ("spec", Json.bool true)]
 
-def replay (c : Cfg) : List Op → St → List Json → List Json
-  | [], _, acc => acc.reverse
-  | op :: ops, s, acc =>
+def replay (c : Cfg) : List Op → St → List Line → List Json → List Json
+  | [], _, _, acc => acc.reverse
+  | op :: ops, s, f, acc =>
     let (s', r) := step c op s
-    replay c ops (warm s') (snap c s' r :: acc)
+    let f' := lastFile f [op]
+    replay c ops (warm s') f' (snap c s' f' r :: acc)
 
 def handle (j : Json) : Except String Json := do
   let op ← strField j "op"
@@ -78,7 +89,7 @@ def handle (j : Json) : Except String Json := do
     let c ← if cfg == "repaired" then pure repaired else if cfg == "snapshot" then pure snapshot else err s!"C08: bad cfg {cfg}"
     let f ← (← arrField j "file").mapM lineOf
     let ops ← (← arrField j "ops").mapM opOf
-    return Json.mkObj [("steps", Json.arr (replay c (.read f :: ops) init []).toArray)]
+    return Json.mkObj [("steps", Json.arr (replay c (.read f :: ops) init [] []).toArray)]
   | _ => err s!"C08: unknown op {op}"
 
 end Shelx.Drv.C08
